@@ -206,13 +206,16 @@ func c08(args []string) {
 	}
 	for i := 0; i < n; i++ {
 		b := pool[r.intn(len(pool))]
-		switch r.intn(4) {
+		switch r.intn(5) {
 		case 0:
 			b = r.mutate(b)
 		case 1:
 			b = b[:r.intn(len(b)+1)] // truncation
 		case 2:
 			b = append(append([]byte(nil), b...), pool[r.intn(len(pool))]...)
+		case 3: // a complete file followed by the first bytes of another header
+			o := pool[r.intn(len(pool))]
+			b = append(append([]byte(nil), b...), o[:1+r.intn(13)]...)
 		}
 		checksum := r.chance(3, 4)
 		refLog, refErr := decodeEvents(bytes.NewReader(b), 4096, checksum)
@@ -224,11 +227,38 @@ func c08(args []string) {
 		if gotLog != refLog || gotErr != refErr {
 			js := map[string]any{"kind": "chunking-dependence", "bytes": fmt.Sprintf("%x", b), "plan": plan, "bufsize": size, "eof_with_data": eofWD,
 				"contiguous_err": refErr, "chunked_err": gotErr, "same_events": gotLog == refLog, "checksum": checksum}
+			// the stream ends inside a sequence: io.EOF (read by this harness as the end of the stream once a sequence was decoded) from one
+			// reader, io.ErrUnexpectedEOF from the other
+			eofish := func(e int) bool { return e == 0 || e == 1 || e == 2 }
 			truncated := func(e int) bool { return e == 1 || e == 2 }
-			if gotLog == refLog && truncated(gotErr) && truncated(refErr) {
+			if gotLog == refLog && ((truncated(gotErr) && truncated(refErr)) || (eofish(gotErr) && eofish(refErr) && endsInsideSequence(b))) {
 				emitJSON("KNOWN", "eof_kind_depends_on_chunking", js)
 			} else {
 				emitJSON("FAIL", "", js)
+			}
+		}
+		// CheckIntegrity: number of valid sequences and verdict do not depend on the fragmentation either
+		{
+			ci := func(rd io.Reader, size int) (int, int) {
+				defer func() { recover() }()
+				n, err := decoder.New(rd, decoder.WithReadBufferSize(size)).CheckIntegrity()
+				return n, errClass(err)
+			}
+			rn, re := ci(bytes.NewReader(b), 4096)
+			gn, ge := ci(&chunkReader{data: append([]byte(nil), b...), plan: r.chunkPlan(len(b)), eofWithData: eofWD, failAt: -1}, size)
+			wn, we := ci(&chunkReader{data: append([]byte(nil), b...), plan: []int{len(b)}, eofWithData: true, failAt: -1}, 4096) // everything in one Read, together with io.EOF
+			stat("oracle_integrity_chunked_vs_contiguous", 2)
+			for _, g := range [][3]int{{gn, ge, 0}, {wn, we, 1}} {
+				if g[0] != rn || g[1] != re {
+					js := map[string]any{"kind": "integrity-chunking-dependence", "bytes": fmt.Sprintf("%x", b), "bufsize": size, "eof_with_data": eofWD || g[2] == 1, "single_read_with_eof": g[2] == 1,
+						"contiguous": []int{rn, re}, "chunked": []int{g[0], g[1]}}
+					truncated := func(e int) bool { return e == 1 || e == 2 }
+					if g[0] == rn && truncated(g[1]) && truncated(re) {
+						emitJSON("KNOWN", "eof_kind_depends_on_chunking", js)
+					} else {
+						emitJSON("FAIL", "", js)
+					}
+				}
 			}
 		}
 		// reader failure before the requested bytes were delivered
@@ -255,3 +285,9 @@ func c08(args []string) {
 }
 
 func prefixLines(s string) string { return s }
+
+// endsInsideSequence: the byte string stops in the middle of a sequence (header, record or CRC cut off), judged by the raw decoder.
+func endsInsideSequence(b []byte) bool {
+	_, err := decoder.NewRaw().Decode(bytes.NewReader(b), func(decoder.RawFlag, []byte) error { return nil })
+	return err != nil && (errors.Is(err, io.EOF) || errors.Is(err, io.ErrUnexpectedEOF))
+}
